@@ -182,57 +182,59 @@ def polygon_measure_harness(n):
         if vc.symbolic:
             tri = vc.log.get("triangle", [])
             ok = len(tri) == n
-            vc.ensure("area() sums exactly n fan triangles", ok)
+            # (how area() triangulates is not part of the property: a different triangulation - a triangle fast path, a fan from a vertex - is not an error;
+            # the script below then does not apply and the final clause is left to the solver / the random search on the real code)
             if not ok:
-                return
-            inpl = [SP.dot(SP.sub(p, pp), nv) for p in pts]
-            # identify each summed triangle with a fan triangle (centre, p_i, p_(i+1)) whatever the order of summation; a different
-            # triangulation is not an error: the script then does not apply and the final clause is left to the solver / random search
-            from g3dvc import smt as _smt
-            from g3dvc.sym import F as _F
-            refs = [SP.cross(SP.sub(pts[i], c), SP.sub(pts[(i + 1) % n], c)) for i in range(n)]
-            match = {}
-            for k_, (r_, w_) in enumerate(tri):
-                for i in range(n):
-                    if i in match.values():
-                        continue
-                    if _smt.prove(_F(SP.veq(w_, refs[i])), [], 1500, use_cone=False, portfolio=False)["status"] == "proved":
-                        match[k_] = i
-                        break
-            if len(match) != n:
-                vc.note("the summed triangles are not the fan (centre, p_i, p_(i+1)): proof script not applicable")
-            for k_, i in sorted(match.items()):
-                r, w = tri[k_]
-                a, b = SP.sub(pts[i], c), SP.sub(pts[(i + 1) % n], c)
-                an, bn = SP.dot(a, nv), SP.dot(b, nv)
-                # S1: the two fan edges are parallel to the plane (vertices and their mean lie in it)
-                for nm, vec_, dotv, idx in (("a", a, an, i), ("b", b, bn, (i + 1) % n)):
-                    ident = dotv == inpl[idx] - sum(inpl[j] for j in range(n)) / n
-                    vc.hint("(p - c).n expanded", ident)
-                    vc.have("fan edge %s%d parallel to the plane" % (nm, i), dotv == 0, using=[ident] + [x == 0 for x in inpl], abstract=[dotv] + inpl)
-                # S2: w x n = 0 (BAC-CAB)
-                wxn = SP.cross(w, nv)
-                for k in range(3):
-                    bac = wxn[k] == b[k] * an - a[k] * bn
-                    vc.hint("BAC-CAB", bac)
-                    vc.have("fan normal parallel to n, triangle %d component %d" % (i, k), wxn[k] == 0, using=[bac, an == 0, bn == 0], abstract=[wxn[k], an, bn])
-                # S3: |w|^2 = (w.n)^2 (Lagrange, |n| = 1)
-                wn = SP.dot(w, nv)
-                lag = SP.norm2(w) * SP.norm2(nv) - wn * wn == wxn[0] * wxn[0] + wxn[1] * wxn[1] + wxn[2] * wxn[2]
-                vc.hint("Lagrange", lag)
-                vc.have("|w|^2 = (w.n)^2, triangle %d" % i, SP.norm2(w) == wn * wn, using=[lag, SP.norm2(nv) == 1] + [x == 0 for x in wxn], abstract=[SP.norm2(w), SP.norm2(nv), wn] + list(wxn))
-                # S4: w.n = T_i = (1/n) sum_j e_ij >= 0 (the centre is a convex combination: it is left of every edge)
-                e = [SP.dot(nv, SP.cross(SP.sub(pts[(i + 1) % n], pts[i]), SP.sub(pts[j], pts[i]))) for j in range(n)]
-                cent = wn == sum(e) / n
-                vc.hint("fan term as the mean of the edge tests", cent)
-                vc.hint("edge test of the edge's own end points vanishes", And(e[i] == 0, e[(i + 1) % n] == 0))
-                prem = [cent, e[i] == 0, e[(i + 1) % n] == 0] + [e[j] > 0 for j in range(n) if j not in (i, (i + 1) % n)]
-                vc.have("fan triangle %d positively oriented" % i, wn > 0, using=prem, abstract=[wn] + e)
-                # S5: 2 r = w.n
-                vc.have("2 r_%d = w.n" % i, 2 * r == wn, using=[4 * r * r == SP.norm2(w), r >= 0, SP.norm2(w) == wn * wn, wn > 0], abstract=[SP.norm2(w), wn])
-            total = sum(SP.dot(tri[i][1], nv) for i in range(n))
-            vc.hint("sum of the fan terms = shoelace sum", total == shoelace)
-            vc.ghost(*([SP.dot(tri[i][1], nv) for i in range(n)] + [shoelace]))
+                vc.note("area() does not sum n fan triangles (%d): proof script not applicable" % len(tri))
+            if ok:
+                inpl = [SP.dot(SP.sub(p, pp), nv) for p in pts]
+                # identify each summed triangle with a fan triangle (centre, p_i, p_(i+1)) whatever the order of summation; a different
+                # triangulation is not an error: the script then does not apply and the final clause is left to the solver / random search
+                from g3dvc import smt as _smt
+                from g3dvc.sym import F as _F
+                refs = [SP.cross(SP.sub(pts[i], c), SP.sub(pts[(i + 1) % n], c)) for i in range(n)]
+                match = {}
+                for k_, (r_, w_) in enumerate(tri):
+                    for i in range(n):
+                        if i in match.values():
+                            continue
+                        if _smt.prove(_F(SP.veq(w_, refs[i])), [], 1500, use_cone=False, portfolio=False)["status"] == "proved":
+                            match[k_] = i
+                            break
+                if len(match) != n:
+                    vc.note("the summed triangles are not the fan (centre, p_i, p_(i+1)): proof script not applicable")
+                for k_, i in sorted(match.items()):
+                    r, w = tri[k_]
+                    a, b = SP.sub(pts[i], c), SP.sub(pts[(i + 1) % n], c)
+                    an, bn = SP.dot(a, nv), SP.dot(b, nv)
+                    # S1: the two fan edges are parallel to the plane (vertices and their mean lie in it)
+                    for nm, vec_, dotv, idx in (("a", a, an, i), ("b", b, bn, (i + 1) % n)):
+                        ident = dotv == inpl[idx] - sum(inpl[j] for j in range(n)) / n
+                        vc.hint("(p - c).n expanded", ident)
+                        vc.have("fan edge %s%d parallel to the plane" % (nm, i), dotv == 0, using=[ident] + [x == 0 for x in inpl], abstract=[dotv] + inpl)
+                    # S2: w x n = 0 (BAC-CAB)
+                    wxn = SP.cross(w, nv)
+                    for k in range(3):
+                        bac = wxn[k] == b[k] * an - a[k] * bn
+                        vc.hint("BAC-CAB", bac)
+                        vc.have("fan normal parallel to n, triangle %d component %d" % (i, k), wxn[k] == 0, using=[bac, an == 0, bn == 0], abstract=[wxn[k], an, bn])
+                    # S3: |w|^2 = (w.n)^2 (Lagrange, |n| = 1)
+                    wn = SP.dot(w, nv)
+                    lag = SP.norm2(w) * SP.norm2(nv) - wn * wn == wxn[0] * wxn[0] + wxn[1] * wxn[1] + wxn[2] * wxn[2]
+                    vc.hint("Lagrange", lag)
+                    vc.have("|w|^2 = (w.n)^2, triangle %d" % i, SP.norm2(w) == wn * wn, using=[lag, SP.norm2(nv) == 1] + [x == 0 for x in wxn], abstract=[SP.norm2(w), SP.norm2(nv), wn] + list(wxn))
+                    # S4: w.n = T_i = (1/n) sum_j e_ij >= 0 (the centre is a convex combination: it is left of every edge)
+                    e = [SP.dot(nv, SP.cross(SP.sub(pts[(i + 1) % n], pts[i]), SP.sub(pts[j], pts[i]))) for j in range(n)]
+                    cent = wn == sum(e) / n
+                    vc.hint("fan term as the mean of the edge tests", cent)
+                    vc.hint("edge test of the edge's own end points vanishes", And(e[i] == 0, e[(i + 1) % n] == 0))
+                    prem = [cent, e[i] == 0, e[(i + 1) % n] == 0] + [e[j] > 0 for j in range(n) if j not in (i, (i + 1) % n)]
+                    vc.have("fan triangle %d positively oriented" % i, wn > 0, using=prem, abstract=[wn] + e)
+                    # S5: 2 r = w.n
+                    vc.have("2 r_%d = w.n" % i, 2 * r == wn, using=[4 * r * r == SP.norm2(w), r >= 0, SP.norm2(w) == wn * wn, wn > 0], abstract=[SP.norm2(w), wn])
+                total = sum(SP.dot(tri[i][1], nv) for i in range(n))
+                vc.hint("sum of the fan terms = shoelace sum", total == shoelace)
+                vc.ghost(*([SP.dot(tri[i][1], nv) for i in range(n)] + [shoelace]))
             vc.ensure("area() = n.(sum p_i x p_(i+1)) / 2 (the area of the polygon)", SP.eq(2 * out.value, shoelace))
             vc.ensure("area() > 0", SP.gtz(out.value))
         else:
